@@ -30,7 +30,8 @@ def shuffled(rng, items):
 def rand_closed_tree(rng, pns=(), depth=0, maxdepth=3):
     ns = dict(pns)
     for _ in range(rng.choice([0, 0, 1, 2])):
-        ns[rng.choice(["eml", "stmml", "xsi", "p", "q", "xml"])] = rng.choice(["u1", "u2", "http://x/y", gen.rand_text(rng, 4)])
+        # prefixes are arbitrary names: also ones that look like JSON / Python literals
+        ns[rng.choice(["eml", "stmml", "xsi", "p", "q", "xml", "null", "None", "true", "nil", "n0"])] = rng.choice(["u1", "u2", "http://x/y", gen.rand_text(rng, 4)])
     def d():
         out = {}
         for _ in range(rng.choice([0, 0, 1, 2, 3])):
